@@ -129,7 +129,8 @@ In(e, Q) ==
     [] e.k \in {"circle", "sphere"} ->
          LET c == AffV(e.c, Q)  r == Aff(e.r, Q)
              d == [i \in DOMAIN c |-> Q.val[e.v][i] - c[i]]
-         IN SumOver(DOMAIN c, [i \in DOMAIN c |-> d[i] * d[i]]) <= r * r
+         \* (a radius function may go negative for some parameter rows: the ball is empty there)
+         IN r >= 0 /\ SumOver(DOMAIN c, [i \in DOMAIN c |-> d[i] * d[i]]) <= r * r
     [] e.k = "poly" -> PolyIn(e, Q)
     [] e.k = "mesh" -> MeshIn(e, Q)
     [] e.k = "union" -> In(e.l, Q) \/ In(e.r, Q)
